@@ -130,6 +130,7 @@ fn classify_build(msg: &str) -> String {
         ("not enough routing matrices specified", "notEnough"),
         ("invalid matrix index", "invalidIndex"),
         ("amount of fleet profiles does not match matrix profiles", "profileCount"),
+        ("some matrix profiles are not defined", "mixedKnownNames"),
         ("is not defined in fleet profiles", "unknownName"),
     ];
     table.iter().find(|(k, _)| msg.contains(k)).map(|(_, v)| v.to_string()).unwrap_or_else(|| format!("other:{msg}"))
